@@ -10,6 +10,7 @@
    model (the repaired code and each pre-repair switch), for any number of
    goroutines and calls and any trace. *)
 From V Require Import Model.Base Model.Pdu Model.ConnLTS Model.ConnRun Proofs.ConnBase Proofs.ConnC14.
+From V Require Import Proofs.ConnSched.
 Open Scope N_scope.
 
 (* A frame reaches the transport in ONE Write call carrying the whole Marshal
@@ -70,7 +71,22 @@ Example C14_example :
             filter (in_gor s 7) (wire_callers s) = [0; 1]%nat.
 Proof. exact c14_example. Qed.
 
+(* The tie between this model and the implementation.  Every forced schedule the
+   harness runs on the real Conn is evaluated as [sched_admits fixed auto groups
+   snapshots final] (for C05: [sched_env_admits]: additionally within the hypotheses of C05).
+   What a [true] means: SOME trace of [step] from [init] — one resolution of the
+   internal choices no property decides (R1 a select with two ready cases, R2 the
+   order in which waiting senders reach the transport, R3 a hand-over racing
+   Done()) — ends in a state showing exactly what the implementation showed
+   (results of all calls, PDU() deliveries, every transport Write with its octets,
+   Watch / Done() / keep-alive).  The search that finds the trace is not trusted. *)
+Theorem C14_tie_sound : forall v auto groups snaps final,
+  sched_admits v auto groups snaps final = true ->
+  exists tr s, run v init tr = Some s /\ reachable v s /\ beq_obs (observe s) final = true.
+Proof. exact sched_admits_sound. Qed.
+
 Print Assumptions C14_single_write.
 Print Assumptions C14_stream.
 Print Assumptions C14_order.
 Print Assumptions C14_invalid_seq.
+Print Assumptions C14_tie_sound.
